@@ -1,1 +1,108 @@
-(** Props/C03.v — placeholder, to be written. *)
+(** Props/C03.v — call returns to its caller, jump does not, switch takes the first true case. *)
+From PV Require Import Engine EngineProofs.
+Open Scope string_scope.
+Notation RG := (list val -> option string -> option string -> st -> R).
+Notation RP := (string -> option (list val) -> option string -> option string -> st -> R).
+
+(** call runs the named groups (with their own handlers) to completion, then execution
+    resumes right after the calling step: [OOk] lets the enclosing loops/steps continue
+    (C01_steps_in_order, C05_foreach_in_order) *)
+Theorem C03_call_resumes : forall (rg : RG) (rp : RP) sp k s c s1,
+  run_body rp sp s = (ORaise (RSig (SCall c)), s1) ->
+  invoke rg rp sp k s =
+  (let '(o, s2) := rg (c_groups c) (c_success c) (c_failure c) s1 in
+   let s3 := reset_counters sp k c s2 in
+   match o with
+   | OOk => (OOk, s3)
+   | ORaise (RSig sg) => (ORaise (RSig sg), s3)
+   | ORaise r => (OHandled r, s3)
+   | OHandled _ => (OUnsup, s3)
+   | OUnsup => (OUnsup, s3)
+   end).
+Proof. exact invoke_call. Qed.
+Print Assumptions C03_call_resumes.
+
+(** whatever the called groups did to the counter keys — overwritten through loops and calls
+    of their own to any depth, or removed — for EVERY state [s] they left behind, the
+    caller's own counters are back in context ... *)
+Theorem C03_reset_restores : forall sp k c s,
+  c_key c <> "whileCounter" -> c_key c <> "i" -> c_key c <> "retryCounter" ->
+  (forall w n, s_while sp = Some w -> k_while k = Some n ->
+               sget "whileCounter" (ctx (reset_counters sp k c s)) = Some (VInt n)) /\
+  (forall v, has_foreach sp = true -> k_for k = Some v ->
+             sget "i" (ctx (reset_counters sp k c s)) = Some v) /\
+  (forall r n, s_retry sp = Some r -> k_retry k = Some n ->
+               sget "retryCounter" (ctx (reset_counters sp k c s)) = Some (VInt n)).
+Proof. exact reset_counters_all. Qed.
+Print Assumptions C03_reset_restores.
+
+(** ... and so is the caller's own call / switch configuration object ... *)
+Theorem C03_reset_restores_config : forall sp k c s,
+  sget (c_key c) (ctx (reset_counters sp k c s)) = Some (c_orig c).
+Proof. exact reset_counters_key. Qed.
+Print Assumptions C03_reset_restores_config.
+
+(** ... and nothing else is touched *)
+Theorem C03_reset_frame : forall sp k c s key,
+  key <> "whileCounter" -> key <> "i" -> key <> "retryCounter" -> key <> c_key c ->
+  sget key (ctx (reset_counters sp k c s)) = sget key (ctx s).
+Proof. exact reset_counters_frame. Qed.
+Print Assumptions C03_reset_frame.
+
+(** jump abandons the remaining steps of its group and runs the target groups instead *)
+Theorem C03_jump_abandons : forall lib (rg : RG) (rp : RP) g b s s1 c,
+  run_steps rg rp (get_steps lib g s) s = (ORaise (RSig (SJump c)), s1) ->
+  run_group lib rg rp g b s = rg (c_groups c) (c_success c) (c_failure c) s1.
+Proof. exact run_group_jump. Qed.
+Print Assumptions C03_jump_abandons.
+
+Theorem C03_jump_rest_never_runs : forall (rg : RG) (rp : RP) pre sp post s s1 o s2,
+  run_steps rg rp pre s = (OOk, s1) -> run_step rg rp sp s1 = (o, s2) -> o <> OOk ->
+  run_steps rg rp (pre ++ sp :: post) s = (o, s2).
+Proof. exact run_steps_stops_at. Qed.
+Print Assumptions C03_jump_rest_never_runs.
+
+(** switch: the first case whose expression is true — all earlier ones false — is taken and
+    nothing after it is looked at, for any number of cases *)
+Theorem C03_switch_first_true : forall s pre v call post idx last,
+  Forall (fun x => exists cl, plain_case s x false cl) pre ->
+  plain_case s v true call ->
+  switch_select s (pre ++ v :: post) idx last = Ok (Some call).
+Proof. exact switch_select_first_true. Qed.
+Print Assumptions C03_switch_first_true.
+
+(** no case true and no default: nothing is called *)
+Theorem C03_switch_none : forall s cases idx last,
+  Forall (fun x => exists cl, plain_case s x false cl) cases ->
+  switch_select s cases idx last = Ok None.
+Proof. exact switch_select_all_false. Qed.
+Print Assumptions C03_switch_none.
+
+(** default is honoured in last position *)
+Theorem C03_switch_default : forall s c idx d,
+  sget "default" c = Some d -> d <> VNone ->
+  switch_select s [VDict c] idx idx = Ok (Some d).
+Proof. exact switch_select_default. Qed.
+Print Assumptions C03_switch_default.
+
+(** * Non-vacuity: caller under foreach + while; callee loops and wipes the counters *)
+Definition P (tag : string) (fe : option val) (inn : dict) (b : body) (nm : string) : step :=
+  mkstep nm b (Some ((VStr "ptag", VStr tag) :: inn)) fe None None
+         (VBool true) (VBool false) (VBool false) None (Some (1, 5)%Z).
+Definition lib3 : library :=
+  [("main", [("steps", Some [
+      mkstep "pypyr.steps.call" BCall (Some [(VStr "call", VStr "callee")])
+             (Some (VList [VStr "a"; VStr "b"]))
+             (Some (mkw (Some (VInt 2)) None (VInt 0) (VBool false))) None
+             (VBool true) (VBool false) (VBool false) None (Some (1, 5)%Z);
+      P "after" None [] BProbe "vprobe"]);
+    ("callee", Some [
+      P "in-callee" (Some (VList [VInt 7; VInt 8])) [] BProbe "vprobe";
+      P "wipe" None [(VStr "contextClear", VList [VStr "i"; VStr "whileCounter"; VStr "call"])]
+        BClear "pypyr.steps.contextclear"])])].
+
+Example C03_nonvacuous :
+  let r := api_run EFUEL lib3 "main" [] None None None (1 # 4) in
+  fst r = OOk /\ List.length (trace (snd r)) = 9%nat /\
+  sget "i" (ctx (snd r)) = Some (VStr "b") /\ sget "whileCounter" (ctx (snd r)) = Some (VInt 2).
+Proof. vm_compute. repeat split; reflexivity. Qed.
